@@ -14,7 +14,7 @@ CASE_TIMEOUT = "20s"
 RULE = ("Go files: imports (plain, aliased, module-internal), 1-6 struct/interface/other type declarations in "
         "every order relative to their value/pointer-receiver methods, free functions with (grouped, unnamed) "
         "parameters and results, struct and interface types written in place as field / parameter / result types, bodies of call statements (package-qualified, receiver, parameter, local "
-        "variable, local function), defer, assignments, returns, if / else / else-if / block statements nested to depth 3, "
+        "variable, local function), defer, assignments, returns, call statements taking a function literal (nested to depth 3), if / else / else-if / block statements nested to depth 3, "
         "body-less declarations, methods whose receiver type is declared elsewhere; Python "
         "modules: import a / a as b / a, b / from m import x, y (parenthesised, with a trailing comma, aliased), decorated classes with "
         "methods, decorated functions, nested defs and classes, classes inside defs; one tagged sub-stream per (repaired "
@@ -28,7 +28,7 @@ TRUSTED_BASE = ["not modelled: go/parser and the ANTLR Python lexer/parser (the 
                 "(package, type, node, function), imports; positions and member ids are not compared"]
 ASSUMPTIONS = ["the file name is demo.go / demo.py (package name of the path is empty), no go.mod, no extensions; in the "
                "directory runs every other tree also holds a .gitignore and an ignored generated file next to the source",
-               "Go: no top-level var/const specs, no function literals, no local type declarations; identifiers "
+               "Go: no top-level var/const specs, function literals only as the last argument of a call statement, no local type declarations; identifiers "
                "called as f(...) are not parameters or local variables",
                "Python: no size limit on modules (the lexer's 32-slot token ring used to corrupt modules above about "
                "30 logical lines; repaired by f146bde, the py_long stream now generates modules of a few hundred lines)"]
@@ -79,6 +79,11 @@ def r_stmt(s, depth=1):
         return [ind + "return" + (" " + ", ".join(r_expr(e) for e in s[1]) if s[1] else "")]
     if k == "block":
         return [ind + "{"] + [l for x in s[1] for l in r_stmt(x, depth + 1)] + [ind + "}"]
+    if k == "calllit":
+        # ("calllit" call (stmt ...)): the call takes a function literal as its last argument
+        x, f, args = s[1]
+        head = (x + "." if x else "") + f + "(" + "".join(r_atom(a) + ", " for a in args) + "func() {"
+        return [ind + head] + [l for y in s[2] for l in r_stmt(y, depth + 1)] + [ind + "})"]
     # ("if" body els hint)
     _, body, els, hint = s
     lines = [ind + "if true {"] + [l for x in body for l in r_stmt(x, depth + 1)]
@@ -214,6 +219,8 @@ def _nested_sel_call(s, inside):
         return any(_nested_sel_call(x, True) for x in s[1] + s[2])
     if s[0] == "block":
         return any(_nested_sel_call(x, True) for x in s[1])
+    if s[0] == "calllit":
+        return (inside and bool(s[1][0])) or any(_nested_sel_call(x, True) for x in s[2])
     return False
 
 def go_tags(f):
@@ -237,6 +244,14 @@ def go_tags(f):
             if hasbody != "1":
                 bodyless = True
             in_if |= any(_nested_sel_call(s, False) for s in body)
+    def lit_defer(s):
+        # a selector call deferred directly inside a function literal
+        if s[0] == "calllit":
+            return any(x[0] == "defer" and x[1][0] for x in s[2]) or any(lit_defer(x) for x in s[2])
+        if s[0] == "if": return any(lit_defer(x) for x in s[1] + s[2])
+        if s[0] == "block": return any(lit_defer(x) for x in s[1])
+        return False
+    if any(d[0] == "func" and any(lit_defer(s) for s in d[6]) for d in decls): tags.append("lit_defer")
     if before: tags.append("method_before_type")
     if bodyless: tags.append("bodyless_func")
     if grouped: tags.append("grouped_names")
@@ -333,9 +348,23 @@ def gen_body(rng, recv, params, imports, funcs, types, in_if=False):
         if rng.random() < 0.25:
             return ["", rng.choice(funcs + ["undeclared", "println"] + types[:1]), gen_atoms(rng, idents)]
         return [callee_x(), rng.choice(METHOD_NAMES + ["Println", "New", "Do"]), gen_atoms(rng, idents)]
+    def lit_body(depth):
+        out = []
+        for _ in range(rng.randint(0, 3)):
+            r7 = rng.random()
+            if r7 < 0.4: out.append(["expr", call()])
+            elif r7 < 0.65: out.append(["defer", call()])
+            elif r7 < 0.8: out.append(["assign", [["id", rng.choice(["u", "y", "z"])]], [["call"] + call()]])
+            elif r7 < 0.9 and depth < 2: out.append(["calllit", call(), lit_body(depth + 1)])
+            else:
+                out.append(["return", []]); break
+        return out
     for _ in range(rng.randint(0, 5)):
         r = rng.random()
-        if r < 0.4:
+        if r < 0.06:
+            # a function literal as the last argument (go func, callbacks, t.Run): its statements are statements of the function
+            body.append(["calllit", call(), lit_body(0)])
+        elif r < 0.4:
             body.append(["expr", call()])
         elif r < 0.5:
             body.append(["defer", call()])
